@@ -5,6 +5,8 @@
 #include <xenium/kirsch_bounded_kfifo_queue.hpp>
 #include <xenium/kirsch_kfifo_queue.hpp>
 
+#include <stdexcept>
+
 using namespace xmc;
 
 namespace {
@@ -184,6 +186,55 @@ void kb_boundary() {
   delete q;
 }
 
+// extreme constructor arguments: C06 holds "for every k >= 1 and every segment count the constructor accepts" - a pair
+// whose product does not fit the index representation (or does not even fit 64 bits) must be refused with
+// std::invalid_argument; if the constructor accepts a pair, pushes must be accepted up to (segments-1)*k+1 stored values
+// (seed C06d: the range test computed on a product that has wrapped around)
+void kb_ctor() {
+  set_op_names(kOps, 2);
+  struct Cfg { uint64_t k, segs; };
+  static const Cfg cfgs[] = {
+    {2, (uint64_t(1) << 63) + 1}, {4, (uint64_t(1) << 62) + 1}, {3, 6148914691236517206ull /* (2^64+2)/3 */}, {uint64_t(1) << 32, (uint64_t(1) << 32) + 1},
+    {8, (uint64_t(1) << 61) + 1}, {5, 3689348814741910324ull /* (2^64+4)/5 */}, {1, (uint64_t(1) << 32) + 1}, {2, (uint64_t(1) << 31) + 1},
+    {uint64_t(1) << 33, 1}, {0, 4}, {4, 0}, {1, 1}, {3, 2}, {2, 3}};
+  const int which = choose((int)(sizeof(cfgs) / sizeof(cfgs[0])));
+  const uint64_t k = cfgs[which].k, segs = cfgs[which].segs;
+  set_rand_domain(1);
+  xenium::kirsch_bounded_kfifo_queue<int*>* q = nullptr;
+  bool threw = false;
+  try {
+    q = new xenium::kirsch_bounded_kfifo_queue<int*>(k, segs);
+  } catch (const std::invalid_argument&) {
+    threw = true;
+  }
+  mark_nontrivial();
+  if (k == 0 || segs == 0) {
+    if (!threw) fail("ORACLE", "constructor accepted k = %lu, segments = %lu", (unsigned long)k, (unsigned long)segs);
+    return;
+  }
+  if (threw) {
+    if (k * segs <= 64 && segs < 64) fail("ORACLE", "constructor refused the small configuration k = %lu, segments = %lu", (unsigned long)k, (unsigned long)segs);
+    return; // refused: nothing is promised
+  }
+  // accepted: at least min(20, (segs-1)*k+1) pushes must succeed on the empty queue
+  unsigned __int128 bound = (unsigned __int128)(segs - 1) * k + 1;
+  int need = bound > 20 ? 20 : (int)bound;
+  for (int i = 1; i <= need; i++) {
+    op_begin(0, i);
+    bool ok = q->try_push(enc(i));
+    op_end(ok);
+    if (!ok) fail("ORACLE", "k = %lu, segments = %lu accepted by the constructor, but push #%d is rejected with only %d values stored", (unsigned long)k, (unsigned long)segs, i, i - 1);
+  }
+  for (int i = 1; i <= need; i++) {
+    int* v = nullptr;
+    op_begin(1);
+    bool ok = q->try_pop(v);
+    op_end(ok, ok ? dec(v) : 0);
+    if (!ok) fail("ORACLE", "try_pop reports empty with %d values stored", need - i + 1);
+  }
+  delete q;
+}
+XMC_TEST_FN("kb_ctor", &kb_ctor, "kirsch_bounded_kfifo_queue: extreme constructor arguments");
 XMC_TEST_FN("kb", (&kfifo_test<Bounded>), "kirsch_bounded_kfifo_queue");
 XMC_TEST_FN("kf_hp", (&kfifo_test<Unbounded<rec::HPs<3>>>), "kirsch_kfifo_queue, HP");
 XMC_TEST_FN("kf_hpd", (&kfifo_test<Unbounded<rec::HPd<1>>>), "kirsch_kfifo_queue, dynamic HP");
